@@ -6,9 +6,16 @@ rendered from /repo/field/composite.go on every run (`Gen/GuardsComposite.lean`)
 -/
 import Iso8583.Gen.GuardsComposite
 import Iso8583.Model.Field
+import Iso8583.Lemmas.GuardTactics
 
 namespace Iso8583.GuardsComposite
 open Iso8583 Iso8583.Gen.Guards
+
+/-- the source's two conditions as one proposition (over `Int`: `len(data)-offset` may be negative) -/
+theorem composite_guards_iff (dataLen offset dlen read : Int) :
+    (composite_Unpack_guards dataLen offset dlen read).any id = true ↔
+      (dataLen < 0 ∨ dataLen > dlen - offset ∨ dataLen ≠ read) := by
+  unfold composite_Unpack_guards; guards_to_prop <;> guards_done
 
 /-- the announced length exceeds what remains after the prefix ⇒ rejected (no subfield is read) -/
 theorem composite_unpack_bound_guarded (s : CompSpec) (subs : List (Tag × Field)) (data : Bytes)
@@ -16,8 +23,7 @@ theorem composite_unpack_bound_guarded (s : CompSpec) (subs : List (Tag × Field
     (ho : ¬ offset > data.length)
     (hg : (composite_Unpack_guards dataLen offset data.length dataLen).any id = true) :
     Field.unpack (.comp s subs) data = .err [] := by
-  simp only [composite_Unpack_guards, List.any_cons, List.any_nil, id, Bool.or_false, Bool.or_eq_true,
-    decide_eq_true_eq, ne_eq, not_true_eq_false, or_false] at hg
+  have h := (composite_guards_iff _ _ _ _).mp hg
   have hgt : dataLen > data.length - offset := by omega
   simp only [Field.unpack, hd, ho, if_false, hgt, if_true]
 
@@ -48,10 +54,11 @@ theorem composite_unpack_ok_guards_false (s : CompSpec) (subs : List (Tag × Fie
             simp only [UR.ok.injEq, Prod.mk.injEq] at h
             refine ⟨dataLen, offset, read, hd, h.2.symm, ?_⟩
             have heq' : dataLen = read := by simpa using heq
-            simp only [composite_Unpack_guards, List.any_cons, List.any_nil, id, Bool.or_false,
-              Bool.or_eq_false_iff, decide_eq_false_iff_not]
-            refine ⟨⟨by omega, by omega⟩, ?_⟩
-            simp [heq']
+            have hno : ¬ ((composite_Unpack_guards dataLen offset data.length read).any id = true) := by
+              intro hh
+              have := (composite_guards_iff _ _ _ _).mp hh
+              omega
+            simpa using hno
 
 example : (composite_Unpack_guards 5 2 6 5).any id = true ∧ (composite_Unpack_guards 4 2 6 4).any id = false ∧
     (composite_Unpack_guards 4 2 6 3).any id = true := by decide
